@@ -368,13 +368,16 @@ def orbOf (o : OrbSym) : SpecC08.Orb :=
   { cones := o.cones, bnds := o.bnds,
     handles := if o.orientable then o.count else 0, caps := if o.orientable then 0 else o.count }
 
-/-- what the monitor `symbolExact` establishes -/
-structure SymbolExact (s : Sym) (o : OrbSym) : Prop where
+/-- the census part of the exactness of the model's orbifold symbol -/
+structure SymbolCensus (s : Sym) (o : OrbSym) : Prop where
   sym : orbifoldSymbol s = .ok o
   cones : o.cones.Perm (conesOf (typesOf s.data))
   corners : o.bnds.flatten.Perm (cornersOf (typesOf s.data))
   genus : (2 * (if o.orientable then o.count else 0) + (if o.orientable then 0 else o.count) : Int) =
     2 - (eulerCharacteristic s + (o.bnds.length : Int))
+
+/-- what the monitor `symbolExact` establishes -/
+structure SymbolExact (s : Sym) (o : OrbSym) : Prop extends SymbolCensus s o where
   oriented : (o.bnds.isEmpty && (if o.orientable then 0 else o.count) == 0) = s.view.isOriented
 
 theorem symbolExact_spec {s : Sym} (g : Good2d s) (hex : symbolExact s = true) :
@@ -401,7 +404,7 @@ theorem symbolExact_spec {s : Sym} (g : Good2d s) (hex : symbolExact s = true) :
     · rename_i hx
       have ho := (Outcome.ok.inj hos').symm
       have hx' : 0 ≤ 2 - (eulerCharacteristic s + (bnds.length : Int)) := by omega
-      refine ⟨o, hos, ?_, ?_, ?_, ?_⟩
+      refine ⟨o, ⟨hos, ?_, ?_, ?_⟩, ?_⟩
       · rw [ho]; exact sortDescNat_perm _
       · rw [ho]
         simp only
@@ -446,7 +449,7 @@ theorem mem_cornersOf_gt {ts : List (Nat × Bool)} {v : Nat} (h : v ∈ cornersO
   simp only [Bool.and_eq_true, decide_eq_true_eq] at this
   omega
 
-theorem orbOf_wf {s : Sym} {o : OrbSym} (hx : SymbolExact s o) : (orbOf o).WF := by
+theorem orbOf_wf_census {s : Sym} {o : OrbSym} (hx : SymbolCensus s o) : (orbOf o).WF := by
   constructor
   · intro v hv
     have := mem_conesOf_gt (hx.cones.mem_iff.1 hv)
@@ -457,7 +460,7 @@ theorem orbOf_wf {s : Sym} {o : OrbSym} (hx : SymbolExact s o) : (orbOf o).WF :=
     omega
 
 /-- **Gauss–Bonnet under the monitor**: K = 2·χ(orbifold symbol) -/
-theorem gauss_bonnet_exact {s : Sym} (g : Good2d s) {o : OrbSym} (hx : SymbolExact s o) :
+theorem gauss_bonnet_census {s : Sym} (g : Good2d s) {o : OrbSym} (hx : SymbolCensus s o) :
     ∃ K, curvature s = .ok K ∧ K.toRat = 2 * SpecC08.chiQ (orbOf o) := by
   obtain ⟨K, hK, hv⟩ := curvature_euler g
   refine ⟨K, hK, ?_⟩
@@ -477,11 +480,20 @@ theorem gauss_bonnet_exact {s : Sym} (g : Good2d s) {o : OrbSym} (hx : SymbolExa
   rw [hc, hb]
   linarith
 
+/-- (the same statements under the names of the first version of this file; a `SymbolExact`
+    hypothesis `hx` is passed as `hx.toSymbolCensus`) -/
+theorem orbOf_wf {s : Sym} {o : OrbSym} (hx : SymbolCensus s o) : (orbOf o).WF :=
+  orbOf_wf_census hx
+
+theorem gauss_bonnet_exact {s : Sym} (g : Good2d s) {o : OrbSym} (hx : SymbolCensus s o) :
+    ∃ K, curvature s = .ok K ∧ K.toRat = 2 * SpecC08.chiQ (orbOf o) :=
+  gauss_bonnet_census g hx
+
 /-- under the monitor the census `badCensus` is the Spec's `bad` of the model's orbifold symbol -/
 theorem isSpherical_spec {s : Sym} (g : Good2d s) (hsz : 1 ≤ s.size) {o : OrbSym} (hx : SymbolExact s o) :
     ∃ K, curvature s = .ok K ∧ K.toRat = 2 * SpecC08.chiQ (orbOf o) ∧
       isSpherical s = .ok (decide (0 < K.toRat) && !SpecC08.bad (orbOf o)) := by
-  obtain ⟨K, hK, hgb⟩ := gauss_bonnet_exact g hx
+  obtain ⟨K, hK, hgb⟩ := gauss_bonnet_census g hx.toSymbolCensus
   obtain ⟨K', hK', hsph⟩ := isSpherical_iff_good g hsz
   rw [hK] at hK'
   cases hK'
@@ -493,7 +505,7 @@ theorem isSpherical_spec {s : Sym} (g : Good2d s) (hsz : 1 ≤ s.size) {o : OrbS
       SpecC08.proper_of_ge _ (fun v hv => mem_conesOf_gt (hx.cones.mem_iff.1 hv))
     have hp2 : SpecC08.proper (orbOf o).bnds.flatten = o.bnds.flatten :=
       SpecC08.proper_of_ge _ (fun v hv => mem_cornersOf_gt (hx.corners.mem_iff.1 hv))
-    have := bad_eq_badCensus s.data (orbOf o) (orbOf_wf hx) hchi
+    have := bad_eq_badCensus s.data (orbOf o) (orbOf_wf_census hx.toSymbolCensus) hchi
       (by rw [hp1]; exact hx.cones) (by rw [hp2]; exact hx.corners) hx.oriented
     rw [this]
   · simp [hpos]
